@@ -111,7 +111,8 @@ class Registry:
         self.regions: dict[tuple, dict] = {}
         self.inline_ctor: set[str] = set()
         self.flags: dict[str, bool] = {}
-        self.obj_invariants: dict[str, str] = {}     # switches for known-finding exclusions (see driver)
+        self.obj_invariants: dict[str, str] = {}
+        self.interference: dict[tuple, dict] = {}     # switches for known-finding exclusions (see driver)
         self.kind_hints: dict = {}
 
     # the functions below are what spec files use -------------------------------------
@@ -164,6 +165,12 @@ class Registry:
         and raises nothing.  Checked syntactically (only Name targets, all declared); listed as assumption."""
         self.regions[(qualname, stmt_type, ordinal)] = dict(
             assigns=OrderedDict((k, parse_kind(v)) for k, v in assigns.items()), note=note)
+
+    def interfere(self, owner, field, lock_field, kind):
+        """Rely condition of a lock-protected field (Owicki-Gries, lock-restricted): whenever the field is read without
+        holding <obj>.<lock_field>, and whenever that lock is acquired, another thread may have applied `kind`
+        ('append': value := value ++ arbitrary; 'drop-prefix': value := value[n:] for an arbitrary n)."""
+        self.interference[(owner, field)] = dict(lock=lock_field, kind=kind)
 
     def object_invariant(self, cls, expr):
         """A class invariant (established by __init__, preserved by every method that writes the fields - both proved -
